@@ -6,16 +6,14 @@
 // Commodity: c}] (zero if absent). The postconditions are taken from the statement of property C04.
 package check
 
-//@ def isAL(a *account.Account) bool := a.accountType == 0 || a.accountType == 1
 //@ def pos(a *account.Account, c *commodity.Commodity) amounts.Key := amounts.Key{Account: a, Commodity: c}
 //@ def qty(ch *Checker, a *account.Account, c *commodity.Commodity) real := ch.quantities[pos(a, c)]
-//@ def wfAccount(a *account.Account) bool := a != nil && 0 <= a.accountType && a.accountType <= 4
 //@ def wfChecker(ch *Checker) bool := ch.accounts != nil && ch.quantities != nil && !(nil in ch.accounts)
 //@     && (forall k amounts.Key :: {k in ch.quantities} (k in ch.quantities) ==> k.Commodity != nil && k.Account != nil)
 //
 // open: accepted iff the account is not open yet; on success exactly that account becomes open.
 //@ func (*Checker).open
-//@   requires wfChecker(ch) && o != nil && wfAccount(o.Account)
+//@   requires wfChecker(ch) && o != nil && validAccount(o.Account)
 //@   modifies ch.accounts[*]
 //@   ensures @iff: result == nil <==> !old(o.Account in ch.accounts)
 //@   ensures @succ: result == nil ==> dom(ch.accounts) == upd(old(dom(ch.accounts)), o.Account, true)
@@ -24,7 +22,7 @@ package check
 //
 // posting: accepted iff the account is open; asset/liability quantities are accumulated.
 //@ func (*Checker).posting
-//@   requires wfChecker(ch) && p != nil && wfAccount(p.Account) && p.Commodity != nil
+//@   requires wfChecker(ch) && p != nil && validAccount(p.Account) && p.Commodity != nil
 //@   modifies ch.quantities[*]
 //@   ensures @iff: result == nil <==> old(p.Account in ch.accounts)
 //@   ensures @al: result == nil && isAL(p.Account) ==> dom(ch.quantities) == upd(old(dom(ch.quantities)), pos(p.Account, p.Commodity), true)
@@ -35,7 +33,7 @@ package check
 // balance: accepted iff the account is open and, for an asset/liability account (unless checking is
 // switched off), the asserted quantity equals the running quantity (zero if there never was one).
 //@ func (*Checker).balance
-//@   requires wfChecker(ch) && bal != nil && bal.Commodity != nil && wfAccount(bal.Account)
+//@   requires wfChecker(ch) && bal != nil && bal.Commodity != nil && validAccount(bal.Account)
 //@   ensures @open: result == nil ==> (bal.Account in ch.accounts)
 //@   ensures @al: (bal.Account in ch.accounts) && isAL(bal.Account) && !ch.NoCheck ==> (result == nil <==> qty(ch, bal.Account, bal.Commodity) == bal.Quantity)
 //@   ensures @nocheck: (bal.Account in ch.accounts) && ch.NoCheck ==> result == nil
@@ -44,7 +42,7 @@ package check
 // close: accepted iff the account is open and all its (asset/liability) positions are zero; on success
 // the account is no longer open and its positions are dropped; other positions are untouched.
 //@ func (*Checker).close
-//@   requires wfChecker(ch) && c != nil && wfAccount(c.Account)
+//@   requires wfChecker(ch) && c != nil && validAccount(c.Account)
 //@   modifies ch.accounts[*], ch.quantities[*]
 //@   ensures @iff: result == nil <==> (old(c.Account in ch.accounts)
 //@        && (forall k amounts.Key :: old(k in ch.quantities) && k.Account == c.Account ==> old(ch.quantities[k]) == 0))
